@@ -54,7 +54,16 @@ func c06Profile(r *rand.Rand, i int) (*lib.ProfileDoc, *lib.Graph) {
 			default:
 				c = lib.CAtMost(r.Intn(2), inner)
 			}
-			pc.Entries = append(pc.Entries, lib.PCEntry{Path: fmt.Sprintf("ex.c%d", q), Constraints: []lib.Constraint{c, lib.CScalar("maxCount", lib.Int(5))}})
+			path := fmt.Sprintf("ex.c%d", q)
+			switch r.Intn(8) {
+			case 0: // the path parser also accepts a transitive mark on a step (not in the documented grammar): such a profile is a profile too
+				path += "*"
+			case 1:
+				path = fmt.Sprintf("ex.c%d* / ex.c%d | ex.up^", q, (q+1)%5)
+			case 2:
+				path = fmt.Sprintf("(ex.c%d | ex.c%d) / ex.c%d^", q, (q+1)%5, (q+2)%5)
+			}
+			pc.Entries = append(pc.Entries, lib.PCEntry{Path: path, Constraints: []lib.Constraint{c, lib.CScalar("maxCount", lib.Int(5))}})
 		}
 		var body lib.Expr = pc
 		switch r.Intn(4) {
@@ -65,7 +74,11 @@ func c06Profile(r *rand.Rand, i int) (*lib.ProfileDoc, *lib.Graph) {
 		}
 		name := fmt.Sprintf("val%d", v)
 		val := lib.Validation{Name: name, TargetClass: "ex." + target, Message: "m " + name, Body: body}
-		switch r.Intn(8) { // messages that are not YAML strings
+		switch r.Intn(10) { // messages that are not YAML strings; messages with several / repeated placeholders
+		case 4:
+			val.Message = "m {{ex.x}} of {{ex.c0}} then {{ex.x}} again, {{ex.c1}} {{ex.c0}}"
+		case 5:
+			val.Message = "{{ex.c2}}{{ex.c1}}{{ex.c2}}{{ex.x}}{{ex.c1}}{{ex.none}}"
 		case 0:
 			val.MessageRaw = lib.Int(404)
 		case 1:
